@@ -251,6 +251,11 @@ class SR:
     def __pos__(s):
         return s
 
+    def __floordiv__(s, o):
+        if _arr(o):
+            return NotImplemented
+        return SRFloor(s.e, lift(o))
+
     def __truediv__(s, o):
         if _arr(o):
             return NotImplemented
@@ -330,6 +335,30 @@ class SR:
 
     def __repr__(s):
         return f"SR({s.e})"
+
+
+INT_BOUND = 4
+
+
+class SRFloor(SR):
+    """floor(num / den) for den > 0 (recorded as an obligation): only int() is supported, which forks over the values 0..INT_BOUND with the purely
+    real constraints k * den <= num < (k + 1) * den (no integer sort enters the queries).  A value above the bound is an unwinding failure."""
+
+    def __init__(s, num, den):
+        s.num, s.den = num, den
+        CTX.oblig.append(den > 0)
+
+    @property
+    def e(s):
+        raise TypeError("floor division result used as a real: only int(a // b) is modelled")
+
+    def __int__(s):
+        for k in range(INT_BOUND + 1):
+            if SB(z3.And(k * s.den <= s.num, s.num < (k + 1) * s.den)):
+                return k
+        raise PathBound(f"floor division result outside 0..{INT_BOUND}")
+
+    __index__ = __int__
 
 
 class Angle:
